@@ -47,8 +47,8 @@ _p('C02', 'proof',
    'DESIGN.md sections 6 (C02), 8.4')
 
 _p('C03', 'proof',
-   'Provenance contracts on the setup call chain: galerkin == product(R, product(A,P)); scaled_galerkin == scale of it; aggregation::coarse_operator uses 1/over_interp; level::step_down keeps and stores exactly the transfer operators chosen and returns coarse_operator(A,P,R); level::rebuild recomputes level operator, smoother, coarse solver from the new matrix and the coarse matrix from the new matrix and the STORED operators; amg::rebuild refuses without allow_rebuild / on shape mismatch and rebuilds every level once, in order, each from the previous level\'s result.',
-   'That product/transpose/scale/sort_rows equal their dense definitions is the business of the C08 units (bounded). Not decided: strict decrease of level sizes (data dependent), Ruge-Stuben R, do_init last-level decision (unit not built), bitwise equality of rebuilt and fresh hierarchy.',
+   'Provenance contracts on the setup call chain: galerkin == product(R, product(A,P)); scaled_galerkin == scale of it; aggregation::coarse_operator uses 1/over_interp; level::step_down keeps and stores exactly the transfer operators chosen and returns coarse_operator(A,P,R); level::rebuild recomputes level operator, smoother, coarse solver from the new matrix and the coarse matrix from the new matrix and the STORED operators; amg::rebuild refuses without allow_rebuild / on shape mismatch and rebuilds every level once, in order, each from the previous level\'s result. The kernels the chain is built from (product through both SpGEMM algorithms, transpose, scale, sort_rows) are the C08 units, listed here as supporting units: bounded unless marked proved.',
+   'The call chain is proved (no bound); that product/transpose/scale/sort_rows equal their dense definitions is decided by the C08 kernel units that also serve this property (bounded stand-ins, listed separately in the evidence: units_bounded_standin / obligations_in_bounded_units). Not decided: strict decrease of level sizes (data dependent), Ruge-Stuben R, do_init last-level decision (unit not built), bitwise equality of rebuilt and fresh hierarchy.',
    TECH_PROOF,
    ['coarse = R*A*P (re-scaled for plain aggregation) as a term over product/scale', 'rebuild reuses stored P,R and the new A', 'rebuild order and chaining'],
    ['level sizes strictly decrease', 'last level direct/smoother decision in do_init', 'Ruge-Stuben'],
